@@ -1,4 +1,5 @@
 """Generic seeded-search runner: generate -> execute -> oracle, minimise, replay, evidence."""
+import re
 import copy
 import hashlib
 import json
@@ -26,6 +27,9 @@ class Violation:
         return {"class": self.cls, "detail": self.detail, "extra": self.extra}
 
 
+_SCRATCH = re.compile(r"/[^\s'\"`:]*verif-sim\.\d+\.\d+(?:/W)?")
+
+
 class Verdict:
     """Outcome of executing one case."""
 
@@ -43,6 +47,8 @@ class Verdict:
         self.sample = None
 
     def add(self, cls, detail, **extra):
+        # (the scratch directory of the run is not part of what happened)
+        detail = _SCRATCH.sub("$ROOT", detail)
         self.violations.append(Violation(cls, detail, extra))
 
     def probe(self, name, n=1):
